@@ -17,6 +17,7 @@ import props.c12 as c12
 import props.c16 as c16
 
 ID = 'C11'
+ZERO_LABELS = True      # a share of the cases is asked with candidates numbered from 0 (harness/common.py LABEL_MODE)
 LEVEL = 'proof'
 TIE = {'core.get_n_best, proportional.HighestAverages.evaluate': 'correspondence: implementation on k-fold votes vs the extracted model on the unscaled votes (k up to 10^25+7, 2^60+1)',
        'condorcet.pairwise_wins / CondorcetWinner / Copeland / SmithSet / SchwartzSet': 'models shared with C05/C06 (correspondence there); metamorphic relation on the implementation here',
